@@ -21,17 +21,18 @@ type cancelProg struct {
 	TreeOK   bool   // also run on the interpreter (no spawn)
 	TreeOnly bool   // only on the interpreter (host features the VM has no counterpart for)
 	Sync     bool   // also run through VM.SpawnSync (the host call that waits itself)
+	Deadline bool   // also run under a context with a distant deadline
 	Kill     string // interpreter only: this function is registered as the host's kill handler
 	KillOut  string // what the handler prints (the output of a terminated run ends with it)
 }
 
 var c10Progs = []cancelProg{
-	{Name: "infinite-loop", Infinite: true, TreeOK: true, Source: `fn main() {
+	{Name: "infinite-loop", Infinite: true, Deadline: true, TreeOK: true, Source: `fn main() {
     let i = 0;
     loop { i += 1; println(i); }
 }
 `},
-	{Name: "while-try-catch", Infinite: true, TreeOK: true, Source: `fn main() {
+	{Name: "while-try-catch", Infinite: true, Deadline: true, TreeOK: true, Source: `fn main() {
     let i = 0;
     while true {
         try { i += 1; println(i); throw("x"); } catch e { }
@@ -45,7 +46,7 @@ var c10Progs = []cancelProg{
     }
 }
 `},
-	{Name: "sleep-loop", Infinite: true, TreeOK: true, Source: `fn main() {
+	{Name: "sleep-loop", Infinite: true, Deadline: true, TreeOK: true, Source: `fn main() {
     let i = 0;
     loop { i += 1; println(i); time.sleep(0.02); }
 }
@@ -85,7 +86,7 @@ fn w() {
     loop { i += 1; }
 }
 `},
-	{Name: "spawned-infinite", Infinite: true, Sync: true, Source: `fn main() {
+	{Name: "spawned-infinite", Infinite: true, Deadline: true, Sync: true, Source: `fn main() {
     spawn w();
     println("m");
 }
@@ -331,6 +332,15 @@ func init() {
 				Bound:      map[string]int{"quick": 2, "thorough": 3},
 				PollBudget: 12, Horizon: 20000,
 			})
+			if p.Deadline {
+				// the same under a context that also has a deadline far in the future
+				cases = append(cases, schedCase{
+					Name: p.Name + "(context with a distant deadline)", Source: p.Source, Judge: c10Judge(p),
+					Body:       func(h *hostEnv, prog compiler.CompileOutput) { h.ctx.FarDeadline = true; c10Body(h, prog) },
+					Bound:      map[string]int{"quick": 2, "thorough": 3},
+					PollBudget: 12, Horizon: 20000,
+				})
+			}
 			if p.Sync {
 				cases = append(cases, schedCase{
 					Name: p.Name + "(SpawnSync)", Source: p.Source, Body: c10BodySync, Judge: c10Judge(p),
@@ -397,6 +407,7 @@ func c10Tree(tier string, idx int, r *Result) {
 		rc := &rec{}
 		_ = rc
 		opts.TreeKillFn = p.Kill
+		opts.FarDeadline = p.Deadline && k%2 == 0 // every other cancellation point under a context with a distant deadline
 		o := RunTree(a, opts)
 		r.Trans(o.Polls)
 		r.Distinct(p.Name + "|" + o.Class + "|" + fmt.Sprint(o.Polls-k))
